@@ -80,7 +80,12 @@ def run(tier):
     pool = [s for s in corpus.plain_reactions() + corpus.expected_reactions() if stereo_free(s) and "[H]" not in s
             and "[O]" not in s.replace("[O-]", "")]
     pool = corpus.small_fast(pool, max_heavy=40)
-    base = FIXED + corpus.sample(pool, 70 if tier == "quick" else 900, rng)
+    # reactions whose imbalance has several equally short decompositions into database compounds
+    # (inputs with the free-atom placeholders [H] / [O] are left out here as in the corpus pool: the pipeline uses
+    # these very strings as its own markers, see C02)
+    tied = [s for s in gen.tied_completions(400, random.Random(common.seed()))
+            if "[H]" not in s.replace("[H][H]", "") and "[O]" not in s.replace("[O-]", "")]
+    base = FIXED + tied[: 40 if tier == "quick" else 400] + corpus.sample(pool, 70 if tier == "quick" else 900, rng)
     seen = set()
     base = [s for s in base if oracle.reaction_facts(s)["parses"] and not (s in seen or seen.add(s))]
     modes = ["canonical", "perm", "random", "kekule", "mapped", "random"] if tier == "quick" else \
